@@ -251,14 +251,11 @@ func c07GateOne(env *fw.Env, cs c07Case) {
 		pc = nil
 	}
 	if orphan && pc != nil {
+		// system bytes the library never issued. (NOT a replay of the completed Select's own system bytes: until the
+		// select goroutine has run its deferred deregistration — arbitrarily late on a loaded machine — such a frame is
+		// a duplicate reply to a transaction that is still registered, and the library legitimately completes it again;
+		// the first version of this case replayed them and raised one false alarm in a loaded thorough sweep.)
 		sys := uint32(0x0BADBEEF)
-		if sit == "deselected" { // replay the Select.rsp of the select that was completed earlier
-			for _, ev := range pc.Log() {
-				if ev.Frame.PType == 0 && ev.Frame.SType == peer.STSelectReq {
-					sys = ev.Frame.Sys
-				}
-			}
-		}
 		_ = pc.Send(peer.SelectRsp(0xFFFF, 0, sys))
 		if _, err := pc.Barrier(10 * time.Second); err != nil {
 			fail("control-traffic-affected", fmt.Sprintf("Linktest barrier after an orphan Select.rsp in situation %q failed: %v", cs.Situation, err))
